@@ -1,4 +1,5 @@
 import Rare.Spec.C18
+import Rare.Base.F64
 /-!
 # C18 – model of `pkg/expressions/stdlib/funcsTime.go` (after the `fix:` commit for F13)
 
@@ -867,7 +868,7 @@ def leadingInt : Bytes → Nat → Option (Nat × Bytes)
       if x' > 9223372036854775808 then none else leadingInt r x'
 
 inductive DurRes
-  | ok (d : Int) | err | unmodelled
+  | ok (d : Int) | err
   deriving DecidableEq, Repr
 
 /-- a byte that can start a number: `[0-9.]` -/
@@ -879,34 +880,54 @@ def splitFrac (s1 : Bytes) : Bytes × Bytes × Bool :=
   | 46 :: r => (r.takeWhile isDigitB, r.dropWhile isDigitB, true)
   | r => ([], r, false)
 
-/-- The loop of `ParseDuration` (magnitude in ns accumulated in `d`).
-`some none` = error, `none` = declined (a non-zero fraction: float arithmetic). -/
-def parseDurLoop : Nat → Bytes → Nat → Option (Option Nat)
-  | 0, _, _ => some none
+/-- `leadingFraction` on the run of digits after the point: the value `x` of the digits taken and their
+number `k` (Go's `scale` is `10^k`, an exact float64 since `k ≤ 19`).  Digits are taken until the next
+one would push `x` over `2^63`; the remaining ones are skipped (Go's `overflow` flag), so they do not
+count. -/
+def leadingFraction : Bytes → Nat → Nat → Nat × Nat
+  | [], x, k => (x, k)
+  | c :: r, x, k =>
+    if x > 9223372036854775807 / 10 then (x, k)
+    else
+      let y := x * 10 + (c.toNat - 48)
+      if y > 9223372036854775808 then (x, k) else leadingFraction r y (k + 1)
+
+/-- `uint64(float64(f) * (float64(unit) / scale))` with `scale = 10^k`: two correctly rounded binary64
+operations (a division, a product – no fused multiply-add is possible, there is no addition) and a
+truncation, in the shared bit-exact model of `Rare/Base/F64.lean`. -/
+def fracTerm (f unit k : Nat) : Nat :=
+  (F64.toInt64 (F64.mul (F64.ofInt f) (F64.div (F64.ofInt unit) (F64.ofInt (10 ^ k : Nat))))).toNat
+
+/-- The loop of `ParseDuration` (magnitude in ns accumulated in `d`); `none` = error. -/
+def parseDurLoop : Nat → Bytes → Nat → Option Nat
+  | 0, _, _ => none
   | fuel + 1, s, d =>
     match s with
-    | [] => some (some d)
+    | [] => some d
     | c :: _ =>
-      if !isNumChar c then some none
+      if !isNumChar c then none
       else match leadingInt s 0 with
-        | none => some none
+        | none => none
         | some (v, s1) =>
           let pre := s1.length != s.length
           let fr := splitFrac s1
           let post := fr.2.2 && !fr.1.isEmpty
-          if !pre && !post then some none
+          if !pre && !post then none
           else
             let u := fr.2.1.takeWhile (fun c => !isNumChar c)
             let s3 := fr.2.1.dropWhile (fun c => !isNumChar c)
-            if u.isEmpty then some none
+            if u.isEmpty then none
             else match unitOf u with
-              | none => some none
+              | none => none
               | some unit =>
-                if v > 9223372036854775808 / unit then some none
-                else if fr.1.any (· != 48) then none
+                if v > 9223372036854775808 / unit then none
                 else
-                  let d' := d + v * unit
-                  if d' > 9223372036854775808 then some none else parseDurLoop fuel s3 d'
+                  let fk := leadingFraction fr.1 0 0
+                  let v' := if fk.1 > 0 then v * unit + fracTerm fk.1 unit fk.2 else v * unit
+                  if v' > 9223372036854775808 then none
+                  else
+                    let d' := d + v'
+                    if d' > 9223372036854775808 then none else parseDurLoop fuel s3 d'
 
 /-- `time.ParseDuration`. -/
 def parseDuration (s : Bytes) : DurRes :=
@@ -917,24 +938,18 @@ def parseDuration (s : Bytes) : DurRes :=
   if s1 = [48] then .ok 0
   else if s1 = [] then .err
   else match parseDurLoop (s1.length + 1) s1 0 with
-    | none => .unmodelled
-    | some none => .err
-    | some (some d) =>
+    | none => .err
+    | some d =>
       if neg then .ok (-(d : Int))
       else if d > 9223372036854775807 then .err else .ok d
 
-/-- `kfDuration` on the evaluated argument: `int64(duration.Seconds())`.  `Seconds()` is a float64
-sum; it is exact (and the conversion a truncation) whenever the sub-second part is zero or the
-magnitude is below 2^21 s. -/
+/-- `kfDuration` on the evaluated argument: `int64(duration / time.Second)` – the whole seconds of the
+parsed duration, truncated toward zero in integer arithmetic (after 7d50a89 in /repo; before, the
+float64 sum of `duration.Seconds()` rounded `16777216.999999999s` up to 16777217). -/
 def duration (arg : Bytes) : Out :=
   match parseDuration arg with
   | .err => .val errorParsing
-  | .unmodelled => .unmodelled "duration-fraction"
-  | .ok d =>
-    let sec := Int.tdiv d 1000000000
-    let nsec := Int.tmod d 1000000000
-    if nsec ≠ 0 ∧ sec.natAbs ≥ 2097152 then .unmodelled "duration-float-rounding"
-    else .val (itoa sec)
+  | .ok d => .val (itoa (Int.tdiv d 1000000000))
 
 /-! ## rare: the stages -/
 
